@@ -139,7 +139,7 @@ func TestC10(t *testing.T) {
 	}
 
 	// ---- random histories
-	n := r.N(15, 500)
+	n := r.N(12, 300)
 	for i := 0; i < n; i++ {
 		strict := r.Rng.Intn(2) == 0
 		d := newDriver(t, r.Rng, strict)
